@@ -192,18 +192,41 @@ func c06ColShiftCase(x *c06X, cf *FuncInfo, left bool, mode string) (bad []strin
 				}
 				next = append(next, p)
 			default:
-				for _, o := range x.execStmt(fr, s, p.st, nil) {
-					if len(o.effs) > 0 {
+				outs := x.execStmt(fr, s, p.st, nil)
+				// a memmove of cells, copy(line[a:], line[b:]), possibly under a guard: the statement is the phase
+				// that moves the cells; the paths of it that move nothing must be those on which nothing has to move
+				spanStmt := false
+				for _, o := range outs {
+					for _, ef := range o.effs {
+						if ef.kind == "copySpan" {
+							spanStmt = true
+						}
+					}
+				}
+				for _, o := range outs {
+					sawCopy := p.sawCopy
+					if spanStmt {
+						b, moved, ok := c06SpanPath(x, o, R0, C0, RIGHT, n0, dir, left)
+						if !ok {
+							x.undecided("screen effects outside the column loops at %s", x.c.P.Pos(s.Pos()))
+							return
+						}
+						bad = append(bad, b...)
+						if moved && p.sawBlank {
+							bad = append(bad, "cells are moved after the vacated cells were blanked: blanks are copied")
+						}
+						sawCopy = true
+					} else if len(o.effs) > 0 {
 						x.undecided("screen effects outside the column loops at %s", x.c.P.Pos(s.Pos()))
 						return
 					}
 					if o.kind == 3 {
-						if !p.sawBlank && !p.sawCopy {
+						if !p.sawBlank && !sawCopy {
 							bad = append(bad, "returns before touching the line although the cursor is inside the screen")
 						}
 						continue
 					}
-					next = append(next, &pathState{st: o.st, sawBlank: p.sawBlank, sawCopy: p.sawCopy})
+					next = append(next, &pathState{st: o.st, sawBlank: p.sawBlank, sawCopy: sawCopy})
 				}
 			}
 		}
@@ -407,7 +430,7 @@ func c06ColShiftLoop(x *c06X, fr *c05Frame, lp *c06Loop, s0 *c05State, R0, C0, R
 	si := s0.clone()
 	e.transfer(fr, si, lp.init)
 	x.generic(si, lp)
-	so := e.assume(fr, si.clone(), lp.cond, false)
+	sos := e.assumeAlts(fr, si.clone(), lp.cond, false)
 	startsBy := func(first c05Lin) bool {
 		d := C.addScaled(first, -1)
 		if !lp.asc {
@@ -416,15 +439,20 @@ func c06ColShiftLoop(x *c06X, fr *c05Frame, lp *c06Loop, s0 *c05State, R0, C0, R
 		return e.prove(sFirst, d)
 	}
 	beyond := func(alts ...c05Lin) bool {
-		if so == nil {
-			return true
-		}
-		for _, a := range alts {
-			if e.prove(so, a) {
-				return true
+		// in every way the loop condition can fail, one of the alternatives holds
+		for _, so := range sos {
+			one := false
+			for _, a := range alts {
+				if e.prove(so, a) {
+					one = true
+					break
+				}
+			}
+			if !one {
+				return false
 			}
 		}
-		return false
+		return true
 	}
 	N := c05Atom(n0)
 	switch kind {
@@ -492,4 +520,113 @@ func c06ColShiftLoop(x *c06X, fr *c05Frame, lp *c06Loop, s0 *c05State, R0, C0, R
 		}
 	}
 	return bad, kind
+}
+
+// copySpanEffect: copy(D[a:hd], S[b:hs]) where D and S are rows of the active screen (directly, or through a row
+// alias bound once): the cells D[a .. a+m-1] receive S[b .. b+m-1], m = min(hd-a, hs-b), with memmove semantics
+// (every source is read before it is overwritten). Omitted bounds are 0 and the row length.
+func (x *c06X) copySpanEffect(fr *c05Frame, call *ast.CallExpr, st *c05State) (c06Eff, bool) {
+	e := x.e
+	type span struct{ row, lo, hi c05Lin }
+	part := func(a ast.Expr) (span, bool) {
+		a = unparen(a)
+		var lo, hi ast.Expr
+		if sx, ok := a.(*ast.SliceExpr); ok {
+			if sx.Max != nil {
+				return span{}, false
+			}
+			lo, hi = sx.Low, sx.High
+			a = unparen(sx.X)
+		}
+		if !e.isRow(fr.info.TypeOf(a)) {
+			return span{}, false
+		}
+		rowX := a
+		if id, ok := a.(*ast.Ident); ok {
+			def := c06AliasDef(fr, id)
+			if def == nil {
+				return span{}, false
+			}
+			rowX = unparen(def)
+		}
+		rix, ok := rowX.(*ast.IndexExpr)
+		if !ok || !e.isGrid(fr.info.TypeOf(rix.X)) || e.pathKey(fr, rix.X) != c05Active {
+			return span{}, false
+		}
+		sp := span{row: e.linOf(fr, st, rix.Index), lo: c05Const(0)}
+		if lo != nil {
+			sp.lo = e.linOf(fr, st, lo)
+		}
+		if hi != nil {
+			sp.hi = e.linOf(fr, st, hi)
+		} else {
+			sp.hi = e.canon(st, e.lenLin(fr, st, rix))
+		}
+		return sp, true
+	}
+	d, ok1 := part(call.Args[0])
+	sr, ok2 := part(call.Args[1])
+	if !ok1 || !ok2 {
+		return c06Eff{}, false
+	}
+	return c06Eff{kind: "copySpan", row: d.row, col: d.lo, hi: d.hi, srow: sr.row, src: sr.lo, shi: sr.hi, pos: call.Pos()}, true
+}
+
+// c06SpanPath judges one path of the statement that moves the cells with a memmove. moved: cells do move on it.
+func c06SpanPath(x *c06X, o c06Out, R0, C0, RIGHT c05Lin, n0 string, dir int64, left bool) (bad []string, moved, ok bool) {
+	e := x.e
+	N := c05Atom(n0)
+	le := func(a, b c05Lin) bool { return e.prove(o.st, a.addScaled(b, -1)) } // a <= b
+	one := c05Const(1)
+	// the cells that must receive another cell of the interval: ICH [col0+n, right], DCH [col0, right-n];
+	// there are none exactly when col0+n >= right+1
+	noneNeeded := le(RIGHT.addScaled(one, 1), C0.addScaled(N, 1))
+	if len(o.effs) > 1 || (len(o.effs) == 1 && o.effs[0].kind != "copySpan") {
+		return nil, false, false
+	}
+	empty := len(o.effs) == 0
+	var ef c06Eff
+	if !empty {
+		ef = o.effs[0]
+		if le(ef.hi, ef.col) || le(ef.shi, ef.src) {
+			empty = true
+		}
+	}
+	if empty {
+		if !noneNeeded {
+			bad = append(bad, "the cells are not moved on a path on which a cell's source lies inside [cursor column, right margin]: the cell keeps its old content")
+		}
+		return bad, false, true
+	}
+	if !x.eq(o.st, ef.row.addScaled(R0, -1)) {
+		return []string{"a cell of another row than the cursor row is written"}, true, true
+	}
+	if !x.eq(o.st, ef.srow.addScaled(R0, -1)) {
+		return []string{"a cell is copied from another row"}, true, true
+	}
+	if !x.eq(o.st, ef.src.addScaled(ef.col, -1).addScaled(N, -dir)) {
+		return []string{fmt.Sprintf("the cells starting at %s receive the cells starting at %s, not the cells n columns to their %s (n as passed)", e.showLin(ef.col), e.showLin(ef.src), map[bool]string{true: "right", false: "left"}[left])}, true, true
+	}
+	// last cell written: col + min(hi-col, shi-src) - 1
+	lastA := ef.hi.addScaled(one, -1)
+	lastB := ef.col.addScaled(ef.shi, 1).addScaled(ef.src, -1).addScaled(one, -1)
+	if !le(C0, ef.col) {
+		bad = append(bad, "a cell left of the cursor is modified")
+	}
+	if !le(lastA, RIGHT) && !le(lastB, RIGHT) {
+		bad = append(bad, "a cell right of the right margin is modified")
+	}
+	first, last := C0.addScaled(N, 1), RIGHT // ICH
+	if left {
+		first, last = C0, RIGHT.addScaled(N, -1)
+	}
+	if !noneNeeded {
+		if !le(ef.col, first) {
+			bad = append(bad, "the move does not start at the first cell whose source is inside [cursor column, right margin]: the cell keeps its old content")
+		}
+		if !le(last, lastA) || !le(last, lastB) {
+			bad = append(bad, "the move can stop while a cell whose source is inside the interval has not been moved")
+		}
+	}
+	return bad, true, true
 }
